@@ -109,6 +109,30 @@ Theorem C15_preserved : forall (leaf : Type),
 Proof. exact preserved. Qed.
 Print Assumptions C15_preserved.
 
+(* the property in one statement: for every tree t of height <= 128 and every internal key, the
+   descriptor obtained from the text of t (or from TapTree::combine) has the depth list of t,
+   its output key is the internal key tweaked by BIP341's root of t, and the spend info yields
+   one verifying control block per leaf of t, in order *)
+Theorem C15_end_to_end :
+  forall (leaf hash : Type) (leafH : leaf -> hash) (branchH : hash -> hash -> hash)
+         (key okey parity : Type) (tweak : key -> option hash -> okey * parity)
+         (tweak_check : okey -> parity -> key -> hash -> bool),
+  (forall a b, branchH a b = branchH b a) ->
+  (forall k r, tweak_check (fst (tweak k (Some r))) (snd (tweak k (Some r))) k r = true) ->
+  forall (ik : key) (t : tree leaf), height leaf t <= 128 ->
+  exists dl si cbs,
+    parse_tokens leaf (tokens_of_tree leaf t) = TOk dl /\
+    api_build leaf t = TOk dl /\
+    tree_of_depths leaf dl = Some t /\
+    from_tr leaf hash leafH branchH key okey parity tweak ik (Some dl) = TOk si /\
+    (si_okey _ _ _ _ _ si, si_parity _ _ _ _ _ si) = tweak ik (Some (root leaf hash leafH branchH t)) /\
+    control_blocks leaf hash key okey parity si = TOk cbs /\
+    map fst cbs = map snd (depths_of_tree leaf t) /\
+    Forall (fun lc => cb_verify leaf hash leafH branchH key okey parity tweak_check
+                        (si_okey _ _ _ _ _ si) (fst lc) (snd lc) = true) cbs.
+Proof. exact end_to_end. Qed.
+Print Assumptions C15_end_to_end.
+
 (* ---- non-vacuity: the hypotheses are satisfiable and the bound is sharp ---- *)
 Example C15_ex_hypotheses :
   (forall a b, ex_branchH a b = ex_branchH b a) /\
